@@ -1,6 +1,10 @@
 SPECIFICATION Spec
 CONSTANTS
+  Mode = "corpus"
+  Y0 = 2000
+  Y1 = 2000
+  Batch = 100
   Stride = 1
   Offset = 0
-  Devs = {"RgPt", "BwRev", "BwOrigin", "WrapSlice", "RepairCp", "RepairJn"}
+  PipeLen = 2
 CHECK_DEADLOCK FALSE
